@@ -1,7 +1,7 @@
 """C15 — server sessions: bounded, oldest evicted, closed on shutdown (structural clauses; isolation over histories is NOT decided)."""
 from core import rule, loc_of
 from facts import AnchorLost, norm
-import q, effects
+import q, effects, inline
 from tables import *
 from rules.c08 import one
 
@@ -14,7 +14,8 @@ SC = 'rodbus::server::task::ServerCommand'
 @rule('C15', 'R15.1', 'session limit: at the limit the oldest (lowest id) session is evicted before the new one is recorded')
 def r1(c):
     P = c.P
-    b = P.fn(TR + '::add')
+    # get_next_id is a two-line private helper of add: look at add with it expanded
+    b = inline.expand(P, P.fn(TR + '::add'), {TR + '::get_next_id'})
     c.saw(b, len(b.calls()))
     facts = q.cmp_facts(b)
     rm = one([cs for cs in b.calls() if cs.callee.endswith('BTreeMap::remove')], 'sessions.remove in add')
@@ -35,21 +36,43 @@ def r1(c):
     cl = b.op_closure(rm.args[1])
     nx = [cs for cs in b.calls() if cs.declared == 'core::iter::traits::iterator::Iterator::next']
     okk = len(keys) == 1 and len(nx) == 1 and any(x[0] == 'call' and x[2] == nx[0].block for x in cl) and any(x[0] == 'call' and x[2] == keys[0].block for x in b.op_closure(nx[0].args[0]))
-    back = [cs for cs in b.calls() if cs.callee.endswith('::next_back') or cs.callee.endswith('::last') or cs.callee.endswith('::rev') or cs.callee.endswith('::max')]
+    # or BTreeMap::first_key_value(), the smallest key by definition
+    fkv = [cs for cs in b.calls() if cs.callee.endswith('BTreeMap::first_key_value')]
+    if not okk and len(fkv) == 1 and not keys:
+        okk = any(x[0] == 'call' and x[2] == fkv[0].block for x in cl)
+    back = [cs for cs in b.calls() if cs.callee.endswith('::next_back') or cs.callee.endswith('::last') or cs.callee.endswith('::rev') or cs.callee.endswith('::max') or cs.callee.endswith('::last_key_value') or cs.callee.endswith('::pop_last')]
     c.ob('evict/oldest', okk and not back, 'the key removed is the FIRST key of the ordered map (the lowest, i.e. oldest id)', '', rm.loc())
     c.ob('evict/before-insert', b.reaches(rm.ret, ins.node) and not b.reaches(ins.ret, rm.node), 'the new session is recorded after the eviction', '', ins.loc())
-    gid = one(b.calls(TR + '::get_next_id'), 'get_next_id')
-    ki = q.sem(b, ins.args[1])
-    c.ob('insert/fresh-id', ki.kind == 'call' and ki.cs is gid and q.is_name(b, ins.args[2], 'sender'), 'the new session is stored under a fresh id with the given sender', repr(ki), ins.loc())
-    c.ob('insert/always', b.dominates(ins.node, ('b', b.return_blocks()[0])) and not b.in_cycle(ins.node), 'every accepted connection is recorded exactly once', '', ins.loc())
-    g = P.fn(TR + '::get_next_id')
-    st = [s for i, s in g.assigns() if s['pl']['p'] and s['pl']['p'][-1].endswith(':id')]
+    # fresh id: the key inserted is self.id as it was before the one increment of this call
+    st = [(i, s_) for i, s_ in b.assigns() if s_['pl']['p'] and s_['pl']['p'][-1].endswith(':id')]
     okg = len(st) == 1
     if okg:
-        v = q.sem(g, st[0]['rv']['a'][0])
-        okg = v.kind == 'bin' and v.extra[1].startswith('Add') and q.const_val(g, v.extra[3]) == 1
-    xs = q.exits(g)
-    c.ob('ids/monotone', okg and len(xs) == 1 and 'ret' in q.chain_names(g, xs[0].get('op')), 'ids grow by one per connection (the old value is returned)', '', loc_of(g))
+        v = q.sem(b, st[0][1]['rv']['a'][0]) if st[0][1]['rv']['r'] == 'use' else None
+        okg = v is not None and v.kind == 'bin' and v.extra[1].startswith('Add') and q.const_val(b, v.extra[3]) == 1 and \
+            q.sem_is_name(b, q.sem(b, v.extra[2]), 'self') and q.sem(b, v.extra[2]).proj[-1].endswith(':id') and not b.in_cycle(('b', st[0][0]))
+    c.ob('ids/monotone', okg, 'ids grow by exactly one per accepted connection', '%d stores to id' % len(st), loc_of(b))
+    oki = False
+    if okg and ins.args[1].get('k') in ('copy', 'move'):
+        # follow the key operand back to the read of self.id; that read must come before the store
+        cur = ins.args[1]['pl']
+        guard = 0
+        rd = None
+        while guard < 10 and not cur['p']:
+            guard += 1
+            ds = b.whole_defs(cur['l'])
+            if len(ds) != 1 or ds[0][0] != 'assign' or ds[0][2]['rv']['r'] != 'use' or ds[0][2]['rv']['a'][0].get('k') not in ('copy', 'move'):
+                break
+            src = ds[0][2]['rv']['a'][0]['pl']
+            if src['p'] and src['p'][-1].endswith(':id'):
+                rd = (ds[0][1], ds[0][2])
+                break
+            cur = src
+        if rd is not None:
+            i1, s1 = st[0]
+            oki = (rd[0] != i1 and b.dominates(('b', rd[0]), ('b', i1))) or (rd[0] == i1 and b.blocks[i1]['stmts'].index(rd[1]) < b.blocks[i1]['stmts'].index(s1))
+    ki = q.sem(b, ins.args[1])
+    c.ob('insert/fresh-id', oki and q.is_name(b, ins.args[2], 'sender'), 'the new session is stored under the id read before the increment (never reused), with the given sender', repr(ki), ins.loc())
+    c.ob('insert/always', b.dominates(ins.node, ('b', b.return_blocks()[0])) and not b.in_cycle(ins.node), 'every accepted connection is recorded exactly once', '', ins.loc())
     a = P.adt(TR)
     ty = {f['name']: f['ty'] for v in a['variants'] for f in v['fields']}
     c.ob('ordered-map', ty.get('sessions', '').startswith('alloc::collections::btree::map::BTreeMap<u128'), 'sessions are kept in a map ordered by id', ty.get('sessions', '')[:60])
